@@ -5,6 +5,6 @@ Import ListNotations.
 
 Theorem C19_no_recheck_refuted :
   exists ps sched st evs,
-    run_gen false (init (progs_of_list ps)) sched = Some (st, evs) /\ lost_wakeup_state st.
+    run_gen false (init ps) sched = Some (st, evs) /\ lost_wakeup_state st.
 Proof. exact no_recheck_refuted_lemma. Qed.
 Print Assumptions C19_no_recheck_refuted.
